@@ -318,6 +318,12 @@ def r8_last_ref_wakes(ctx, rid='C19.R8'):
         r.check(not extra, 'drop_stream_ref|wake-guard', f.loc(bi),
                 'the wake is conditioned on %s%s' % (sorted(atoms), '' if not extra else ' — %s narrows it: a closed, unreferenced stream that is still remembered (reset_at) or queued no longer wakes an idle connection, which then never sends its GOAWAY' % extra))
         r.check(need, 'drop_stream_ref|wake-guard|shape', f.loc(bi), 'the wake is for closed streams whose last reference went away (ref_count == 0 && is_closed)')
+    # the stream's own reference count is decremented before it is tested for the wake
+    rd = [bi for bi, t in f.calls(lambda t: t['fn'].endswith('stream::Stream::ref_dec'))]
+    tests = [bi for bi, sw in core.all_switches(F, f).items() if sw is not None and 'field:ref_count' in core.predicate_atoms(sw)
+             and any(bi in core.control_switches(F, f, w) for w in wakes)]
+    r.check(bool(rd) and bool(tests) and all(f.dominated_by_blocks(t_, rd) for t_ in tests), 'drop_stream_ref|dec-before-test', f.file,
+            'Stream::ref_dec() runs before ref_count is tested for the wake (%d test(s))' % len(tests))
     # the decrement of Inner.refs precedes the wake
     decs = [bi for bi, si, pl, rv, ln in f.stmts() if core.write_target(f, pl) == (P + 'streams::Inner', 'refs')]
     r.check(bool(decs) and all(f.dominated_by_blocks(w, decs) for w in wakes), 'drop_stream_ref|refs-first', f.file, 'Inner.refs is decremented before the connection is woken')
